@@ -146,6 +146,14 @@ CHECKS = {
             "stratified-sampler length mismatch on a rejection shortfall is a known finding (functional-test-pinned).",
             "deviation-bounded environment exploration of scripted random draws + bounded-exhaustive enumeration of solver "
             "configurations and solve histories", "DESIGN.md §6 C13"),
+    "C10": ("HOSVD: every member of a fixed full-rank integer data family x 7 tolerances x sequential T/F x all N! mode orders x "
+            "EVERY rank vector within the mode sizes (and None) x verbosity; Tucker-ALS: ranks x starts (random under seeds 0-2, "
+            "nvecs, given list) x mode orders x maxiters 1..K x stoptol, re-run per horizon; orthonormal factors, core = X x_n U_n^T, "
+            "error bound for automatic ranks, exact requested ranks, reported fit vs recomputation (squared-residual domain), "
+            "monotone residual across horizons, reference cut-off / HOOI comparison, unchanged inputs.",
+            "Trusted: numpy reference (eigh-based cut-off and HOOI), tolerances of DESIGN §4.3; relations between two calls are "
+            "asserted only where every eigenproblem along the reference trajectory has a spectral gap (ARPACK start vectors are "
+            "not controllable).", TECH_PRODUCT, "DESIGN.md §6 C10"),
 }
 PENDING = {f"C{i:02d}": "check not built yet in this phase (planned, see DESIGN.md §6)" for i in range(1, 21) if f"C{i:02d}" not in CHECKS}
 NOT_APPLICABLE = {}
